@@ -26,6 +26,41 @@ def load(split=False):
     return _CACHE[k]
 
 
+def corpus_generated(rep, rule, split=False):
+    """fail closed when the generator (the repository's pilota-build, run by the harness build script) did not get through
+    a corpus document, or its output does not type-check: rules over generated code would otherwise silently look at less"""
+    d = harness_facts(split)
+    man = os.path.join(d, 'gen', 'manifest.txt')
+    if not os.path.exists(man):
+        rep.anchor_missing(rule, 'harness manifest (the generator did not run)')
+        return
+    fails = {}
+    fp = os.path.join(d, 'gen', 'failures.txt')
+    if os.path.exists(fp):
+        for l in open(fp):
+            if '\t' in l:
+                n, m = l.rstrip('\n').split('\t', 1)
+                fails[n] = re.sub(r':\d+:', ':', m)
+    n_ok = 0
+    for l in open(man):
+        e = l.rstrip('\n').split('\t')
+        if len(e) < 6 or e[4] != 'probe=false':
+            continue
+        key = '%s|generator|%s' % (rule, e[0])
+        if e[5] == 'ok=true':
+            n_ok += 1
+        else:
+            rep.bad(rule, key, e[2], 'pilota-build panicked on the corpus document %s (%s): %s -- no code was generated for it, so nothing about it can be checked' % (os.path.basename(e[2]), e[3], fails.get(e[0], '?')[:300]))
+    failed = os.path.join(d, '.failed')
+    key = '%s|generated code type-checks%s' % (rule, ' (split)' if split else '')
+    if os.path.exists(failed):
+        log = open(failed).read()
+        errs = re.findall(r'error(?:\[E\d+\])?: [^\n]*\n\s*--> [^\n]*', log)
+        rep.bad(rule, key, '', 'the code pilota-build generates for the corpus does not type-check against the runtime (%d errors), first: %s' % (len(errs), [re.sub(r'\s+', ' ', x)[:240] for x in errs[:2]] or log[-600:]))
+    else:
+        rep.ok(rule, key, 'pilota-build got through %d corpus runs and rustc type-checked what it emitted' % n_ok)
+
+
 def norm(n):
     return n.replace('_', '').lower()
 
